@@ -25,6 +25,7 @@ CONSTANTS
   DumpMod = 23
   NRepl = 17
   RichOnly = TRUE
+  NeedStruct = FALSE
   MaxRich = 1
   NCmtCls = 8
   NCppForms = 18
